@@ -70,6 +70,7 @@ def generate(ck):
     for i in range(ns):
         comp = wl.gas_composition(rng)
         descs.append({"kind": "sutton", "comp": comp, "extra": [wl.f(rng.uniform(2, 60)), wl.f(rng.uniform(10, 900)), wl.f(rng.uniform(30, 1500))], "bad_type": str(rng.choice(["oil", "", "Dry Gas", "wet", "gas"]))})
+    descs.append({"kind": "python-O"})
     return descs
 
 
@@ -91,6 +92,21 @@ def run_case(ck, desc):
     from bluebonnet.fluids import Fluid, build_pvt_gas, gas, oil, water
 
     kind = desc["kind"]
+    if kind == "python-O":
+        # unknown fluid types are rejected in an interpreter started with -O as well
+        pre = "from bluebonnet.fluids import gas, build_pvt_gas\nnh = gas.make_nonhydrocarbon_properties(0.01, 0.02, 0.03)\n"
+        snips = [pre + f"gas.pseudocritical_point_Sutton(0.7, nh, {b!r})\n" for b in ("oil", "", "gas", "dry", "Dry Gas", "dry gas ", None)]
+        snips += [f"from bluebonnet.fluids import build_pvt_gas\nbuild_pvt_gas({{'N2': 0.0, 'H2S': 0.0, 'CO2': 0.0, 'Gas Specific Gravity': 0.7, 'Reservoir Temperature (deg F)': 200.0}}, {b!r}, maximum_pressure=45)\n" for b in ("", "gas", "oil")]
+        outs = instrument.outcomes_under_optimized_interpreter(snips)
+        for sn, o in zip(snips, outs):
+            if o == "returned":
+                ck.violation("sutton.unknown-fluid-type-rejected", {"in": "python -O", "snippet": sn[-120:]}, desc)
+            elif not o.startswith("raised:"):
+                ck.inconclusive_because(f"python -O child: {o}")
+                return False, None
+            else:
+                ck.count(f"sutton.rejections.python-O.{o[7:]}")
+        return True, {"snippets": len(snips)}
     if kind == "facade":
         T, api, gg, gor = desc["oil"]
         sal = desc["salinity"]
@@ -256,11 +272,21 @@ def run_case(ck, desc):
     for fluid_type, (a, b, c, d, e, f) in {"wet gas": (164.3, 357.7, -67.7, 744.0, -125.4, 5.9), "dry gas": (120.1, 429.0, -62.9, 671.1, -14.0, -34.3)}.items():
         t0, p0 = gas.pseudocritical_point_Sutton(sg, zero, fluid_type)
         _close(ck, "sutton.hydrocarbon-only", [t0, p0], [a + b * sg + c * sg**2 - 459.67, d + e * sg + f * sg**2], desc, 1e-12, {"type": fluid_type})
-    extra = ("Helium", 0.0, *desc["extra"])
-    with_extra = gas.make_nonhydrocarbon_properties(comp["N2"], comp["H2S"], comp["CO2"], extra)
-    t1, p1 = gas.pseudocritical_point_Sutton(sg, with_extra, dry)
-    if not (t1 == Tpc and p1 == ppc):
-        ck.violation("sutton.zero-fraction-extra-component", {"with": [t1, p1], "without": [Tpc, ppc]}, desc)
+    # zero-fraction extras under any label - including labels that repeat one already in the table
+    for label in ("Helium", "CO2", "Hydrogen sulfide", "Nitrogen", "H2S", "", "name"):
+        extra = (label, 0.0, *desc["extra"])
+        with_extra = gas.make_nonhydrocarbon_properties(comp["N2"], comp["H2S"], comp["CO2"], extra)
+        t1, p1 = gas.pseudocritical_point_Sutton(sg, with_extra, dry)
+        if not (t1 == Tpc and p1 == ppc):
+            ck.violation("sutton.zero-fraction-extra-component", {"label": label, "with": [t1, p1], "without": [Tpc, ppc]}, desc)
+    # the same composition in a record array built by hand in the documented row order with other
+    # spellings of the names: the point depends on the numbers, not on the labels
+    relabelled = nonhc.copy()
+    relabelled["name"] = ["N2", "H2S", "Carbon dioxide"][: len(relabelled)]
+    t2, p2 = gas.pseudocritical_point_Sutton(sg, relabelled, dry)
+    if not (t2 == Tpc and p2 == ppc):
+        ck.violation("sutton.point-depends-on-composition-not-labels", {"relabelled": [t2, p2], "library_labels": [Tpc, ppc]}, desc)
+    ck.count("sutton.relabelled_tables")
     # every name other than the two documented ones: pieces, paddings, case and separator variants of
     # them, their concatenation, and non-strings
     for bad in (desc["bad_type"], "dry", "gas", "wet", " dry gas", "dry gas ", "dry_gas", "wetgas", "DRY GAS", "Wet gas", "dry gaswet gas", "y gas", "g", None, 0, ("dry gas",)):
